@@ -187,7 +187,7 @@ func (fc *fnCtx) evalExpr(e ast.Expr, ev *evalCtx, text string) Val {
 			// function under contract: the contract is written from that function's point of view, the
 			// callee's arguments are $0, $1, ...
 			if !ev.callee && !ev.preferBind && fc.fn != nil && !strings.HasPrefix(name, "$") && !strings.HasPrefix(name, "result") {
-				if _, isParam := fc.params[name]; !isParam && fc.hasLocalNamed(name) {
+				if pv, isParam := fc.params[name]; (!isParam || pv.T != v.T) && fc.hasLocalNamed(name) {
 					goto local
 				}
 			}
